@@ -33,7 +33,10 @@ from fractions import Fraction
 
 os.environ.setdefault("JAX_ENABLE_X64", "1")
 
+import sys
+
 from . import common
+from . import c18_tie
 from .common import lst, blit, natlit, rlit
 
 HEADER = """From Coq Require Import Reals List.
@@ -1403,6 +1406,46 @@ def search(ctx, disagreeing):
             if len(out) >= 3:
                 break
     return out
+
+
+def run(ctx):
+    """the standard skeleton, plus the source tie (c18_tie.py) just before the verdict is written: the source of the
+    algebraic sigmoid, of GaussianCopula.__init__ and of the degenerate MVN (_rank, _log_pdet, rank / log_pdet, _log_prob,
+    from_penalty, from_penalty_smooth) is translated to Gallina now and proved equal to the models.  A broken source tie
+    alone is no alarm (a refactoring may leave the translated subset); it is named beside a behavioural disagreement only."""
+    finish = ctx.finish
+
+    def finish_with_tie(*a, **kw):
+        built = "coq build (make) failed" not in ctx.broken
+        if built:
+            try:
+                tie = c18_tie.run(ctx, common.REPO)
+            except Exception as ex:      # optional evidence: never turns into an alarm by itself
+                tie = {"translated": [], "lemmas_ok": False, "lemmas": [], "not_tied": {"all": f"{type(ex).__name__}: {ex}"},
+                       "detail": "SOURCE TIE BROKEN: the tie step aborted; the verdict rests on the behavioural correspondence"}
+        else:
+            tie = {"translated": [], "lemmas_ok": False, "lemmas": [], "not_tied": {},
+                   "detail": "not attempted: the Coq build failed"}
+        ctx.cov["source_tie"] = tie
+        for sec in sorted(tie["not_tied"]):
+            ctx.hist("T.source_tie_broken." + sec)
+        ctx.hist("T.source_tie_lemmas", len(tie["lemmas"]))
+        if built and not tie["lemmas_ok"] and ctx.violations:
+            ctx.broken.append("source tie (py2gallina_c18): " + "; ".join(
+                f"{k}: {v}" for k, v in sorted(tie["not_tied"].items(), key=lambda kv: (kv[1].startswith("needs "), kv[0])))[:600])
+        ctx.extra_tb = list(getattr(ctx, "extra_tb", [])) + [
+            "source tie (advisory): tools/py2gallina_c18.py (Python ast -> Gallina over R for AlgebraicSigmoid._forward / _inverse / "
+            "both log-det-Jacobians, GaussianCopula.__init__ (guard, scale_tril, TransformedDistribution composition) and mvn_degen.py "
+            "(_rank, _log_pdet, rank / log_pdet, _log_prob, from_penalty, from_penalty_smooth in eigen-coordinates; fails closed outside "
+            "its subset), its library-call table (jnp.sqrt / log -> sqrt / ln over R, float literals as the decimal fractions written, "
+            "comparisons -> Rlt_dec / Rle_dec, jnp.sum -> rsum / ncount, jnp.where -> if, the fori_loop mask -> fun i => .., eigh / eigvalsh "
+            "-> the ascending eigenvalue vector (oracle), x prec x^T -> quad, MultivariateNormalTriL / TransformedDistribution(NormalCDF) "
+            "-> their closed forms with the normal quantile an oracle, batch = one member), coq/Analytic/GenC18Tie.v; result of this "
+            "run in coverage.source_tie"]
+        return finish(*a, **kw)
+
+    ctx.finish = finish_with_tie
+    return common.run_standard(ctx, sys.modules[__name__])
 
 
 # ----------------------------------------------------------------------------------------------
